@@ -253,6 +253,9 @@ def evaluate(case):
             except Inconclusive as e:
                 classes.add((lang, 'inconclusive', str(e)[:60]))
                 continue
+            except Exception as e:  # noqa: BLE001 - the interpreter met something it has no rule for (never on the unchanged tree)
+                add('program cannot be interpreted', f'{type(e).__name__}: {e}\n{code}')
+                continue
             for name in fs.opened:
                 if name != literal:
                     add('file path is not the requested one', f'the program opens {name!r}, requested {literal!r}')
